@@ -58,6 +58,7 @@ def explore_config(modname, cfg_id, params, tier, canary=False, want_funcs=False
                unknown_branches=0, branch_queries=0)
     funcs_seen = set()
     state = {'first': True}
+    t_cfg = time.time()
 
     def body():
         ctx = Ctx('sym', settings=S, canary=canary)
@@ -123,6 +124,7 @@ def explore_config(modname, cfg_id, params, tier, canary=False, want_funcs=False
                 _shadow_validate(mod, cparams, ctx, S, res)
     except PathBudget:
         res['budget_exceeded'] = True
+    res['wall_s'] = time.time() - t_cfg
     res['infeasible'] = ENG.ninfeasible
     res['unknown_branches'] = ENG.unknown_branches
     res['branch_queries'] = ENG.nqueries
@@ -491,7 +493,8 @@ def main(argv=None):
         for m in r['shadow_mismatch'][:3]:
             machinery.append('%s: ENGINE-MISMATCH shadow validation: %s' % (cid, m))
         cfg_summaries.append(dict(config=cid, paths=r['paths'], obligations=r['obligations'],
-                                  discharged=r['discharged'], candidates=len(r['candidates'])))
+                                  discharged=r['discharged'], candidates=len(r['candidates']),
+                                  wall_s=round(r.get('wall_s', 0.0), 2)))
         seen_labels = set()
         for c in r['candidates']:
             if c['label'] in seen_labels:
@@ -540,6 +543,9 @@ def main(argv=None):
             print('VIOLATION property=%s replay=%s' % (prop, path))
             print('  config=%s assertion=%s %s | %s' % (cid, c['label'], c['detail'], c['conc_detail'][:300]))
         shown.add(key)
+    if a.verbose:
+        for c in sorted(cfg_summaries, key=lambda c: -c['wall_s'])[:15]:
+            print('SLOW: %(wall_s)7.1fs paths=%(paths)d obligations=%(obligations)d %(config)s' % c)
     if violations:
         exit_code = 1
     elif machinery:
